@@ -198,3 +198,71 @@ example : (sliceWindow {} {} 5 (some 1) (some 3)).apply [0, 1, 2, 3, 4] = [1, 2]
 example : (sliceWindow { sliceWindow := false } {} 5 (some 1) (some 3)).apply [0, 1, 2, 3, 4] = [1] := by decide
 
 end AF.C10
+
+namespace AF.C10
+open AF.Query
+
+/-! ## stepped slices -/
+
+/-- without a stepped slice `runStep` is `run` (all earlier theorems apply unchanged) -/
+theorem runStep_none {α} (ops : NumOps α) (numLe : α → α → Bool) (cfg : Cfg) (db : List (Fit α))
+    (p : Option (Pred α)) (keys : List OrderKey) (slices : List (Option Int × Option Int)) :
+    runStep ops numLe cfg db p keys slices none = run ops numLe cfg db p keys slices := rfl
+
+/-- every index a stepped slice produces lies inside the list: nothing is invented, and the `filterMap`
+of `pySliceStep` drops nothing -/
+theorem sliceIndices_lt (len : Nat) (start stop : Option Int) (step : Int) :
+    ∀ i ∈ sliceIndices len start stop step, i < len := by
+  intro i hi
+  unfold sliceIndices at hi
+  split at hi
+  · rename_i hpos
+    simp only [List.mem_map] at hi
+    obtain ⟨x, hx, rfl⟩ := hi
+    have hcond := List.all_eq_true.mp List.all_takeWhile x hx
+    have hmem := (List.takeWhile_sublist _).subset hx
+    simp only [List.mem_map, List.mem_range] at hmem
+    obtain ⟨k, _, rfl⟩ := hmem
+    simp only [decide_eq_true_eq] at hcond
+    have hs : 0 ≤ (Option.map (fun i : Int => if i < 0 then max (i + (len : Int)) 0 else min i len) start).getD 0 := by
+      cases start with
+      | none => simp
+      | some a => simp only [Option.map_some, Option.getD_some]; split <;> omega
+    have he : (Option.map (fun i : Int => if i < 0 then max (i + (len : Int)) 0 else min i len) stop).getD len ≤ len := by
+      cases stop with
+      | none => simp
+      | some a => simp only [Option.map_some, Option.getD_some]; split <;> omega
+    have hk : 0 ≤ Int.ofNat k * step := Int.mul_nonneg (Int.natCast_nonneg _) (Int.le_of_lt hpos)
+    omega
+  · rename_i hneg
+    simp only [List.mem_map] at hi
+    obtain ⟨x, hx, rfl⟩ := hi
+    have hcond := List.all_eq_true.mp List.all_takeWhile x hx
+    have hmem := (List.takeWhile_sublist _).subset hx
+    simp only [List.mem_map, List.mem_range] at hmem
+    obtain ⟨k, hklt, rfl⟩ := hmem
+    simp only [decide_eq_true_eq] at hcond
+    have hs : (Option.map (fun i : Int => if i < 0 then max (i + (len : Int)) (-1) else min i ((len : Int) - 1)) start).getD ((len : Int) - 1) ≤ (len : Int) - 1 := by
+      cases start with
+      | none => simp
+      | some a => simp only [Option.map_some, Option.getD_some]; split <;> omega
+    have he : -1 ≤ (Option.map (fun i : Int => if i < 0 then max (i + (len : Int)) (-1) else min i ((len : Int) - 1)) stop).getD (-1) := by
+      cases stop with
+      | none => simp
+      | some a => simp only [Option.map_some, Option.getD_some]; split <;> omega
+    have hk : Int.ofNat k * step ≤ 0 := Int.mul_nonpos_of_nonneg_of_nonpos (Int.natCast_nonneg _) (by omega)
+    omega
+
+/-- a stepped slice returns members of the result it slices (a sub-multiset in general; with
+`sliceIndices_lt`, exactly the fits at the produced positions) -/
+theorem pySliceStep_subset {β} (l : List β) (a b : Option Int) (st : Int) :
+    ∀ x ∈ pySliceStep l a b st, x ∈ l := by
+  intro x hx
+  simp only [pySliceStep, List.mem_filterMap] at hx
+  obtain ⟨i, _, hi⟩ := hx
+  exact List.mem_of_getElem? hi
+
+example : pySliceStep [10, 11, 12, 13, 14] none none (-1) = [14, 13, 12, 11, 10] := by decide
+example : pySliceStep [10, 11, 12, 13, 14] (some 4) (some 1) (-1) = [14, 13, 12] := by decide
+
+end AF.C10
